@@ -51,19 +51,19 @@ type Failure struct {
 // prefix of decisions is replayed; a mismatch is a hard harness error.
 func (c *C) Choose(n int, kind ChoiceKind, label string) int {
 	if n <= 0 {
-		panic(fmt.Sprintf("explore: Choose(%d) at %s", n, label))
+		panic(HarnessPanic(fmt.Sprintf("explore: Choose(%d) at %s", n, label)))
 	}
 	if c.pos < len(c.stack) {
 		f := &c.stack[c.pos]
 		if f.n == -1 { // replay frame: adopt what the body asks for
 			if f.chosen < 0 || f.chosen >= n {
-				panic(fmt.Sprintf("explore: recorded choice %d out of range [0,%d) at %s", f.chosen, n, label))
+				panic(HarnessPanic(fmt.Sprintf("explore: recorded choice %d out of range [0,%d) at %s", f.chosen, n, label)))
 			}
 			f.n, f.kind, f.label = n, kind, label
 		}
 		if f.n != n || f.kind != kind {
-			panic(fmt.Sprintf("explore: nondeterministic harness: replaying choice %d (%s) expected n=%d kind=%d, got n=%d kind=%d (%s)",
-				c.pos, f.label, f.n, f.kind, n, kind, label))
+			panic(HarnessPanic(fmt.Sprintf("explore: nondeterministic harness: replaying choice %d (%s) expected n=%d kind=%d, got n=%d kind=%d (%s)",
+				c.pos, f.label, f.n, f.kind, n, kind, label)))
 		}
 		c.pos++
 		if kind == Dev && f.chosen != 0 {
@@ -72,7 +72,7 @@ func (c *C) Choose(n int, kind ChoiceKind, label string) int {
 		return f.chosen
 	}
 	if c.Replay {
-		panic(fmt.Sprintf("explore: replay ran past the recorded choices at %s", label))
+		panic(HarnessPanic(fmt.Sprintf("explore: replay ran past the recorded choices at %s", label)))
 	}
 	first := 0
 	if c.pos == 0 && c.e.NShards > 1 {
@@ -113,6 +113,19 @@ func (c *C) Choices() []int {
 }
 
 var errNoWork = fmt.Errorf("no work for shard")
+
+// HarnessPanic is the type of every panic the explorer raises about the harness
+// itself (nondeterminism, bad replay files); code that recovers panics of the
+// system under test must re-panic these (see IsHarnessPanic).
+type HarnessPanic string
+
+// IsHarnessPanic reports whether a recovered value belongs to the explorer.
+func IsHarnessPanic(p interface{}) bool {
+	if _, ok := p.(HarnessPanic); ok {
+		return true
+	}
+	return p == errNoWork
+}
 
 type Stats struct {
 	Executions int64
@@ -156,7 +169,7 @@ func (e *Explorer) Run(body func(c *C)) {
 			break
 		}
 		if c.pos < len(c.stack) {
-			panic(fmt.Sprintf("explore: nondeterministic harness: execution ended after %d choices, %d were recorded", c.pos, len(c.stack)))
+			panic(HarnessPanic(fmt.Sprintf("explore: nondeterministic harness: execution ended after %d choices, %d were recorded", c.pos, len(c.stack))))
 		}
 		e.Stats.Executions++
 		e.Stats.Nodes += int64(len(c.stack) - before)
@@ -230,6 +243,7 @@ func (e *Explorer) advance(c *C) bool {
 			}
 			if ok {
 				f.chosen += step
+				c.stack = c.stack[:i+1] // decisions after the changed one belong to the previous execution
 				return true
 			}
 		}
@@ -249,7 +263,7 @@ func ReplayOnce(choices []int, body func(c *C)) (fail *Failure, outcome string) 
 	}
 	body(c)
 	if c.pos != len(c.stack) {
-		panic(fmt.Sprintf("explore: replay used %d of %d recorded choices", c.pos, len(c.stack)))
+		panic(HarnessPanic(fmt.Sprintf("explore: replay used %d of %d recorded choices", c.pos, len(c.stack))))
 	}
 	if c.fail != nil {
 		c.fail.Choices = c.Choices()
